@@ -95,7 +95,12 @@ Var(TT, tn, d) ==
                           \cup (IF t.max = 0 THEN {255, 256, 1025, 4100} ELSE {})    \* "<>" in the RFC text: no bound at all
                   ok == {n \in lens : t.max = 0 \/ n <= t.max}
                   ls == ToSeq(ok \ {0})
+                  (* a string is a counted byte string, not text (RFC 4506 4.11 / RFC 1813 filename3, nfspath3): bytes that are *)
+                  (* no ASCII and no UTF-8 - Latin-1, a lone 0xff, a truncated multi-byte sequence, a NUL - are values like any other *)
+                  raw == << <<99, 97, 102, 233>>, <<255>>, <<97, 98, 226, 130>>, <<131, 101, 131, 88, 131, 103>>, <<97, 0, 98>>, <<128, 129, 254, 255, 0, 1, 127>> >>
+                  rs == SelectSeq(raw, LAMBDA r : t.max = 0 \/ Len(r) <= t.max)
               IN <<[k |-> "bytes", b |-> <<>>]>> \o [j \in 1..Len(ls) |-> [k |-> "bytes", b |-> [i \in 1..ls[j] |-> 97 + (i % 26)]]]
+                 \o [j \in 1..Len(rs) |-> [k |-> "bytes", b |-> rs[j]]]
     [] t.k = "arr" -> IF d = 0 THEN <<[k |-> "arr", e |-> <<>>]>>
                       ELSE LET es == Var(TT, t.t, d - 1) IN
                            <<[k |-> "arr", e |-> <<>>], [k |-> "arr", e |-> <<es[1]>>], [k |-> "arr", e |-> <<es[Len(es)], es[1]>>]>>
